@@ -298,6 +298,9 @@ def check(ix, rep):
     nfun = astpure.check_modules(ix, rep, ('rtamt/semantics/', 'rtamt/spec/', 'rtamt/explanation/'), 'spec-read-only')
     rep.floor('functions checked for stores through parameters', nfun, 780)
 
+    # the configured period survives reset(): reset() writes none of the attributes set_sampling_period() writes
+    from sa.rules import units as _ucfg
+    rep.floor('online reset chains checked against the sampling settings', _ucfg.check_reset_keeps_settings(ix, rep), 1)
     # ---- (f) the per-update memo of the update visitor is no state: it is renewed before each traversal (a memo emptied *after* the pass
     # survives an update that raised, and reset() does not touch it)
     from sa.rules import step as _step10
